@@ -113,7 +113,7 @@ fn c19m(seed: u64, _cases: usize, model_path: &str, thorough: bool) -> serde_jso
     let dir = tempfile::tempdir_in("/var/tmp").unwrap();
     let mut dist: BTreeMap<String, u64> = BTreeMap::new(); let mut distinct = std::collections::BTreeSet::new();
     let mut disagreements = vec![]; let mut failures = vec![]; let mut samples = vec![]; let mut execs = 0u64;
-    let ands: &[usize] = if thorough { &[0, 1, 7, 999, 1000, 1001, 1200, 2000, 2100, 3300, 9500] } else { &[0, 3, 1000, 1001, 1200, 2100] };
+    let ands: &[usize] = if thorough { &[0, 1, 7, 999, 1000, 1001, 1200, 2000, 2100, 3300, 9500] } else { &[0, 3, 1000, 1001, 1200, 2100, 3100] };
     for (ci, &a) in ands.iter().enumerate() {
         let n = if ci % 3 == 2 { 3 } else { 2 }; let c = circ::and_chain(n, a);
         let inputs: Vec<Vec<bool>> = c.input_regs.iter().map(|k| (0..*k).map(|_| r.bool()).collect()).collect();
@@ -364,6 +364,41 @@ fn c08(seed: u64, cases: usize, _model_path: &str, thorough: bool) -> serde_json
         *dist.entry("class:vanish".into()).or_default() += 1; distinct.insert((pe, format!("vanish@{k}"), "vanish", okind(o)));
         if !matches!(o, Out::Ok(_) | Out::Err(_)) { failures.push(json!({"witness": "C08:vanish", "failure": format!("peer vanished after {k} messages: victim {}", short(o)), "case": {"victim_is_evaluator": pe == 0}})); }
     } }
+    // ---- a VALIDLY ENCRYPTED garbled row whose plaintext is malformed: only a garbler can produce it (it owns the keys). Three parties, the victim
+    // evaluates and is not the party with the highest index; garbler 1 re-encrypts its rows with the MAC vector cut after the evaluator's entry / emptied /
+    // padded. Keys from garbler 1's own taps (zero labels of the AND gate's input wires, its global key): key = x-label ‖ y-label (big endian),
+    // x-label offset by delta in rows 2,3 and y-label in rows 1,3; nonce = instruction index (u64 BE) ‖ row.
+    { use chacha20poly1305::{aead::{Aead, KeyInit}, ChaCha20Poly1305, Key, Nonce}; use std::{cell::RefCell, rc::Rc};
+      for cl in ["row_macs_cut_after_evaluator", "row_macs_empty", "row_macs_padded"] { for p_eval in [0usize, 1] {
+        let n = 3usize; let adv = if p_eval == 0 { 1 } else { 0 };
+        let insts: Vec<Inst> = vec![Inst { out: Reg(0), op: Op::Input(Input { party: 0, input: 0 }) }, Inst { out: Reg(1), op: Op::Input(Input { party: 1, input: 0 }) }, Inst { out: Reg(2), op: Op::Input(Input { party: 2, input: 0 }) },
+            Inst { out: Reg(3), op: Op::And(And(Reg(0), Reg(1))) }, Inst { out: Reg(3), op: Op::Xor(Xor(Reg(3), Reg(2))) }];
+        let c3 = Circuit { input_regs: vec![1; 3], insts, max_reg_count: 4, output_regs: vec![Reg(3)], and_ops: 1 };
+        let args: Vec<PartyArgs> = (0..n).map(|p| PartyArgs { inputs: vec![true], p_eval, p_own: p, p_out: vec![0, 1, 2], tmp_dir: None }).collect();
+        let taps: Rc<RefCell<Vec<(String, usize, Vec<u128>)>>> = Default::default(); let (t2, t3) = (taps.clone(), taps.clone());
+        let crafted = Rc::new(std::cell::Cell::new(0usize)); let cr2 = crafted.clone(); let cls = cl.to_string();
+        polytune::verif::set_sink(Some(Box::new(move |k, p, v| if k == "delta" || k == "input_label" { t2.borrow_mut().push((k.to_string(), p, v.to_vec())) })));
+        let m: exec::Mutator = Box::new(move |from, to, ph, _k, d| { if from != adv || to != p_eval || ph != "preprocessed gates" { return Some(d); }
+            let t = t3.borrow(); let get = |k: &str| -> Vec<u128> { t.iter().filter(|x| x.0 == k && x.1 == adv).flat_map(|x| x.2.clone()).collect() };
+            let (delta, inlab) = (get("delta"), get("input_label")); if delta.is_empty() || inlab.len() < 2 { return Some(d); }
+            let mut gates: Vec<[Vec<u8>; 4]> = de(&d);
+            for g in gates.iter_mut() { for i in 0..4usize {
+                let lx = inlab[0] ^ if i / 2 == 1 { delta[0] } else { 0 }; let ly = inlab[1] ^ if i % 2 == 1 { delta[0] } else { 0 };
+                let mut key = [0u8; 32]; key[..16].copy_from_slice(&lx.to_be_bytes()); key[16..].copy_from_slice(&ly.to_be_bytes());
+                let mut nonce = [0u8; 12]; nonce[..8].copy_from_slice(&3u64.to_be_bytes()); nonce[8] = i as u8;
+                let cipher = ChaCha20Poly1305::new(Key::from_slice(&key));
+                if let Ok(pt) = cipher.decrypt(Nonce::from_slice(&nonce), g[i].as_ref()) { let (r, mut macs, label): (bool, Vec<u128>, u128) = de(&pt);
+                    match cls.as_str() { "row_macs_cut_after_evaluator" => macs.truncate(p_eval + 1), "row_macs_empty" => macs.clear(), _ => macs.extend([7u128; 5]) }
+                    if let Ok(ct) = cipher.encrypt(Nonce::from_slice(&nonce), ser(&(r, macs, label)).as_ref()) { g[i] = ct; cr2.set(cr2.get() + 1); } } } }
+            Some(ser(&gates)) });
+        let run = exec::run(&c3, &args, &cfg, Some(m)); execs += 1; polytune::verif::set_sink(None);
+        let o = &run.outs[p_eval]; *dist.entry(format!("class:{cl}")).or_default() += 1; *dist.entry(format!("rows_reencrypted:{}", crafted.get())).or_default() += 1; distinct.insert((p_eval, "preprocessed gates".to_string(), cl, okind(o)));
+        let desc = json!({"n": 3, "victim_is_evaluator": true, "p_eval": p_eval, "adversary_garbler": adv, "phase": "preprocessed gates", "class": cl, "rows_reencrypted": crafted.get()});
+        if crafted.get() == 0 { failures.push(json!({"witness": "C08:harness-could-not-craft-row", "failure": "the harness could not decrypt the adversary's own rows with the tapped labels (key derivation changed?)", "case": desc})); }
+        if let Out::Panic(msg) = o { failures.push(json!({"witness": "C08:other-panic", "failure": format!("victim panicked: {msg}"), "case": desc})); }
+        if matches!(o, Out::Blocked) { failures.push(json!({"witness": "C08:hang", "failure": "victim blocked", "case": desc})); }
+        if samples.len() < 4 { samples.push(json!({"case": desc, "victim": short(o)})); }
+      } } }
     json!({"executions": execs, "adversary_messages": total, "distinct_nontrivial": distinct.len(), "distribution": dist, "samples": samples, "model_disagreements": [], "impl_vs_oracle_failures": failures})
 }
 fn okind(o: &Out) -> u8 { match o { Out::Ok(_) => 0, Out::Err(_) => 1, Out::Panic(_) => 2, Out::Blocked => 3 } }
@@ -498,8 +533,11 @@ fn c04(seed: u64, cases: usize, _model_path: &str) -> serde_json::Value {
     // Vec<(Vec<bool>,Vec<Mac>)> with 4 entries each = 8 + 84k (+8 to the first bit); Vec<(bool,bool)> = 8 + 2k; `fashare ver` (n = 2) = 8 + 25r (+8 to the bit).
     let multi: Vec<(&str, Vec<usize>)> = vec![("faand", vec![8, 9]), ("faand", vec![8, 8 + 34]), ("faand", vec![9, 9 + 34]), ("faand", vec![8, 9, 8 + 34, 9 + 34]),
         ("fabitn", vec![8, 8 + 17]), ("fabitn", vec![8 + 17 * 5, 8 + 17 * 119]), ("dvalue", vec![16, 17]), ("dvalue", vec![16, 16 + 84]), ("dvalue", vec![16, 17, 18, 19]),
-        ("haand", vec![8, 9]) /* both bits of one pair: the one the receiver uses is wrong for sure */, ("fashare ver", vec![16, 16 + 25]), ("fashare ver", vec![16, 16 + 25 * 39])];
-    for (phase, offs) in multi { for occurrence in [0usize, 1] { let n = 2; let c = mk_circ2(n);
+        ("haand", vec![8, 9]) /* both bits of one pair: the one the receiver uses is wrong for sure */,
+        // `flaand` = Vec<(e bit, u)>: the e bits are unauthenticated but every wrong one makes the LaAND check value non-zero; two wrong ones in ONE bucket
+        // (the one-AND circuit has a single bucket) must not cancel
+        ("flaand", vec![8]), ("flaand", vec![8, 8 + 17]), ("flaand", vec![8 + 17, 8 + 17 * 4]), ("flaand", vec![8, 8 + 17, 8 + 34, 8 + 51]), ("fashare ver", vec![16, 16 + 25]), ("fashare ver", vec![16, 16 + 25 * 39])];
+    for (phase, offs) in multi { for occurrence in [0usize, 1] { let n = 2; let c = if phase == "flaand" { mk_circ(n) } else { mk_circ2(n) };
         let inputs: Vec<Vec<bool>> = (0..n).map(|_| vec![r.bool()]).collect();
         let args: Vec<PartyArgs> = (0..n).map(|p| PartyArgs { inputs: inputs[p].clone(), p_eval: 0, p_own: p, p_out: (0..n).collect(), tmp_dir: None }).collect();
         let ph = phase.to_string(); let hit = std::rc::Rc::new(std::cell::Cell::new(false)); let hit2 = hit.clone(); let offs2 = offs.clone();
@@ -675,7 +713,8 @@ fn c10(seed: u64, cases: usize, _model_path: &str, thorough: bool) -> serde_json
 }
 
 /// C06 / C07 / C04(challenge): repeated honest executions with taps and full payload recording.
-fn c06(seed: u64, cases: usize, _model_path: &str, which: &str) -> serde_json::Value {
+fn c06(seed: u64, cases: usize, model_path: &str, which: &str) -> serde_json::Value {
+    let mut mdl = Model::spawn(model_path).expect("spawn ptmodel"); let mut disagreements: Vec<serde_json::Value> = vec![]; let mut abit_msgs = 0u64;
     use polytune::garble_lang::register_circuit::*;
     use rand::{seq::SliceRandom, RngCore, SeedableRng};
     use std::{cell::RefCell, rc::Rc};
@@ -705,6 +744,21 @@ fn c06(seed: u64, cases: usize, _model_path: &str, which: &str) -> serde_json::V
         tot[x as usize] += 1; ones[x as usize] += combined as u64;
         // ---- every input wire of party 0 (129 wires: indices on both sides of 64 and 128): its own mask share = revealed ^ peer's share ^ input
         for w in 0..129 { if let (Some(mb), Some(sh)) = (masked[w], ws[w]) { share_ones[w] += (mb ^ sh.0 ^ in0[w]) as u64; share_tot[w] += 1; } }
+        // ---- message-level tie of the aBit consistency check: the Boolean fields of every `fabitn` message = the Lean model's combinations of the
+        // tapped bit string (ALL l + 3·RHO bits, surplus included) under the coefficients it expands from the tapped seed with its own AES-128
+        if which == "C06" && run_i < 12 { for p in 0..n {
+            let xs: Vec<&Vec<u128>> = taps.iter().filter(|t| t.0 == "abit_x" && t.1 == p).map(|t| &t.2).collect(); let seeds: Vec<u128> = taps.iter().filter(|t| t.0 == "abit_rseed" && t.1 == p).map(|t| t.2[0]).collect();
+            let msgs: Vec<Vec<(bool, u128)>> = run.payloads.iter().filter(|(f, t, ph, _)| *f == p && *t == 1 - p && ph == "fabitn").map(|q| de(&q.3)).collect();
+            for k in 0..xs.len().min(seeds.len()).min(msgs.len()).min(2) {
+                let want = format!("abitcheck {}", msgs[k].iter().map(|e| if e.0 { '1' } else { '0' }).collect::<String>());
+                let got = mdl.ask(&format!("abitcheck {} {} {}", hex(&seeds[k].to_le_bytes()), msgs[k].len(), xs[k].iter().map(|b| if *b != 0 { '1' } else { '0' }).collect::<String>()));
+                abit_msgs += 1;
+                if got != want {
+                    // search for a concrete failure: are the broadcast combinations functions of the mask shares ALONE (the 3·RHO surplus bits that blind them left out)?
+                    let l = xs[k].len().saturating_sub(msgs[k].len());
+                    let unbl = mdl.ask(&format!("abitcheck {} {} {}", hex(&seeds[k].to_le_bytes()), msgs[k].len(), xs[k].iter().enumerate().map(|(idx, b)| if idx < l && *b != 0 { '1' } else { '0' }).collect::<String>()));   // surplus bits zeroed, same coefficient layout
+                    if unbl == want { failures.push(json!({"property": "C06", "witness": "C06:abit-check-unblinded", "failure": format!("party {p}'s `fabitn` message (run {run_i}, call {k}) consists of {} public linear combinations of its first {l} bits only — the bits that become its mask shares; the {} surplus bits that are meant to blind them are not included, so every peer learns {} parities of the party's private mask shares", msgs[k].len(), msgs[k].len(), msgs[k].len())})); }
+                    disagreements.push(json!({"what": "Boolean fields of a `fabitn` message differ from the model's combinations of the tapped bit string", "run": run_i, "party": p, "call": k, "bits_in_string": xs[k].len(), "real": want.chars().take(140).collect::<String>(), "model": got.chars().take(140).collect::<String>()})); } } } }
         // ---- every position of every drawn aBit string (per party and call): must be balanced over the runs
         { let mut call: BTreeMap<usize, usize> = BTreeMap::new();
           for (k, p, v) in taps.iter() { if k == "abit_x" { let ci = { let e = call.entry(*p).or_insert(0); *e += 1; *e - 1 }; if ci < 2 { let e = xpos.entry((*p, ci)).or_insert_with(|| (vec![0u64; 256], 0u64)); for (j, b) in v.iter().take(256).enumerate() { e.0[j] += *b as u64; } e.1 += 1; xlen.insert((*p, ci), v.len().min(256)); } } } }
@@ -749,7 +803,7 @@ fn c06(seed: u64, cases: usize, _model_path: &str, which: &str) -> serde_json::V
             if !bad.is_empty() { failures.push(json!({"property": "C06", "witness": "C06:unbalanced-abit-position", "failure": format!("party {p}, aBit call {ci}: {} of {len} positions of the drawn bit string are not balanced over the runs (position:ones/runs): {}", bad.len(), bad.iter().take(8).cloned().collect::<Vec<_>>().join(" "))})); } } }
     // dedupe failures by witness+failure text
     let mut seen = std::collections::BTreeSet::new(); failures.retain(|f| seen.insert(f.to_string()));
-    json!({"executions": execs, "distinct_nontrivial": distinct.len(), "distribution": dist, "samples": samples, "model_disagreements": [], "impl_vs_oracle_failures": failures})
+    json!({"executions": execs, "distinct_nontrivial": distinct.len(), "distribution": dist, "samples": samples, "model_disagreements": disagreements, "abit_check_messages_compared": abit_msgs, "impl_vs_oracle_failures": failures})
 }
 
 /// C01 deep tie: every online-phase message of every party, and the plaintext of every garbled row, recomputed by the Lean model
@@ -915,6 +969,27 @@ fn c07m(seed: u64, cases: usize, model_path: &str) -> serde_json::Value {
         if lie && n == 2 && !leaked.is_empty() && leaked.iter().all(|x| *x) { failures.push(json!({"property": "C07", "witness": "C07-a:ashare-check-bit-lie", "failure": "a misreported aShare check bit makes the honest party open d0^delta: opened XOR the MAC the peer holds equals the honest party's global key (tap)", "positions": lie_positions})); }
         if samples.len() < 2 { samples.push(json!({"n": n, "lie": lie, "positions_compared": 40})); }
     }
+    // ---- leaky-AND: a peer lies about its (unauthenticated) `e` bits in `flaand`; the victim then opens its check value H in `flaand hash`.
+    // Pooling what the victim sent with what the peer holds: does H_victim[j] ^ H_peer[j] equal the victim's global key?
+    for (lie, positions) in [("one-e-bit", vec![0usize]), ("two-e-bits-one-bucket", vec![0usize, 1]), ("none", vec![])] { for rep in 0..2 {
+        let n = 2usize;
+        let insts: Vec<Inst> = (0..n).map(|p| Inst { out: Reg(p as u32), op: Op::Input(Input { party: p as u32, input: 0 }) }).chain(std::iter::once(Inst { out: Reg(n as u32), op: Op::And(And(Reg(0), Reg(1))) })).collect();
+        let c = Circuit { input_regs: vec![1; n], insts, max_reg_count: n + 1, output_regs: vec![Reg(n as u32)], and_ops: 1 };
+        let args: Vec<PartyArgs> = (0..n).map(|p| PartyArgs { inputs: vec![r.bool()], p_eval: 0, p_own: p, p_out: vec![0, 1], tmp_dir: None }).collect();
+        let pos2 = positions.clone();
+        let mutator: exec::Mutator = Box::new(move |from, to, ph, k, d| { if from == 1 && to == 0 && ph == "flaand" && k == 0 { let mut v: Vec<(bool, u128)> = de(&d); for &j in &pos2 { if j < v.len() { v[j].0 = !v[j].0; } } return Some(ser(&v)); } Some(d) });
+        let taps: Rc<RefCell<Vec<(String, usize, Vec<u128>)>>> = Default::default(); let t2 = taps.clone();
+        polytune::verif::set_sink(Some(Box::new(move |k, p, v| if k == "delta" { t2.borrow_mut().push((k.to_string(), p, v.to_vec())) })));
+        let run = exec::run(&c, &args, &RunCfg { cap: 1, sched: Sched::RoundRobin, keep_payloads: true }, Some(mutator)); execs += 1;
+        polytune::verif::set_sink(None);
+        let delta0 = taps.borrow().iter().find(|t| t.1 == 0).map(|t| t.2[0]).unwrap_or(0);
+        let h = |from: usize, to: usize| -> Vec<u128> { run.payloads.iter().find(|(f, t, ph, _)| *f == from && *t == to && ph == "flaand hash").map(|p| de(&p.3)).unwrap_or_default() };
+        let (h0, h1) = (h(0, 1), h(1, 0)); distinct.insert((n, lie == "none", lie.len() + rep));
+        let leaked: Vec<usize> = (0..h0.len().min(h1.len())).filter(|j| delta0 != 0 && h0[*j] ^ h1[*j] == delta0).collect();
+        let victim_ok = matches!(run.outs[0], Out::Ok(_));
+        if !leaked.is_empty() { failures.push(json!({"property": "C07", "witness": if victim_ok { "C07:laand-e-lie-leak-undetected" } else { "C07-b:laand-e-lie-leaks-on-abort" },
+            "failure": format!("a peer lies about its e bits in `flaand` ({lie}): the check value the honest party opens in `flaand hash`, XORed with the peer's own, is the honest party's global key at positions {leaked:?}; the honest party {}", if victim_ok { "completes the run without noticing" } else { "aborts, but only after having sent it" }), "victim": short(&run.outs[0])})); }
+    } }
     let mut seenw = std::collections::BTreeSet::new(); failures.retain(|f| seenw.insert(f["witness"].to_string() + &f["failure"].to_string()));
     json!({"executions": execs, "openings_compared": compared, "distinct_nontrivial": distinct.len(), "distribution": {}, "samples": samples, "model_disagreements": disagreements, "impl_vs_oracle_failures": failures, "model_requests": m.requests})
 }
